@@ -89,7 +89,7 @@ func snapshotPhase1(res *scn.Result) {
 func main() {
 	scnPath := flag.String("scn", "", "scenario file")
 	outPath := flag.String("out", "", "result file")
-	iso := flag.Int("iso", -1, "run only flattened pipeline k, alone (isolated reference)")
+	iso := flag.Int("iso", -1, "run only flattened pipeline k, alone (isolated reference); -2: every pipeline, one after the other, in reverse order")
 	flag.Parse()
 	procs := 1
 	if v := os.Getenv("ZZSIM_PROCS"); v != "" {
@@ -113,6 +113,11 @@ func main() {
 	cliFSRoot = *outPath + ".fs"
 	res := &scn.Result{Prop: s.Prop, RunSeed: s.RunSeed, Faults: map[string]int64{}, Probes: map[string]int64{}, KnobState: knobState}
 	switch {
+	case *iso == -2:
+		runRev(&s, res)
+		out, _ := json.Marshal(res)
+		os.WriteFile(*outPath, out, 0644)
+		return
 	case *iso >= 0:
 		if s.Prop == "C13" {
 			runIsoC13(&s, *iso, res)
